@@ -288,6 +288,8 @@ func runC11(c *Ctx) {
 	p := c.P
 	checkSlotClearedAfterFetch(c, "R22")
 	checkCloserClearsItsSlot(c, "R23")
+	// R24 (= C07.R3): the packet manager stops after pending work — otherwise Serve never returns and no handle is swept
+	c.withOnly("R3", "R24", func() { runC07(c) })
 	pos := func(in ssa.Instruction) string { return p.Pos(in.Pos()) }
 
 	// ---------- R1 handle uniqueness ----------
